@@ -351,6 +351,14 @@ theorem padding_minimal (c p : Nat) (h : (c + p) % 8 = 0) : RecordHeader.autoPad
   unfold RecordHeader.autoPadding
   split <;> omega
 
+/-- The rule does not depend on what the header value carried before: a header reused for the next record (as `StreamWriter` does)
+gets exactly the lengths of a fresh one. -/
+theorem setLengths_forgets (h : RecordHeader) (a b : Nat) :
+    (h.setLengths a).setLengths b = h.setLengths b ∧
+    ((h.setLengths a).setLengths b).paddingLength < 8 ∧
+    (((h.setLengths a).setLengths b).contentLength + ((h.setLengths a).setLengths b).paddingLength) % 8 = 0 := by
+  exact ⟨rfl, (padding_rule b).1, (padding_rule b).2⟩
+
 theorem tables_agree_padding (c : Nat) :
     RecordHeader.autoPadding c < Gen.padModulus ∧
     (c + RecordHeader.autoPadding c) % Gen.padModulus = 0 := padding_rule c
